@@ -267,14 +267,18 @@ structure Parent where
   ctx : Bytes               -- contents of its buffer
   openNs : Nat
 
-/-- `jsonEncoder.clone`: `_jsonPool.Get()`, four assignments, `bufferpool.Get()` -/
+/-- `jsonEncoder.clone` once `_jsonPool.Get()` has returned `g`: four assignments (the last one calls
+    `bufferpool.Get()`); `reflectBuf` and `reflectEnc` stay whatever `g` carried -/
+def cloneFrom (c : Code) (orc : Orc) (h : H) (g : JsonObj) (p : Parent) : ES :=
+  let o1 : JsonObj := { g with cfg := some p.cfg, spaced := p.spaced,
+                               openNs := if c.cloneSetsOpenNs then p.openNs else g.openNs }
+  let b := bufGet orc h
+  ⟨b.2, { o1 with buf := some b.1 }⟩
+
+/-- `jsonEncoder.clone` -/
 def clone (c : Code) (orc : Orc) (h : H) (p : Parent) : ES :=
   let g := takeAt JsonObj.fresh h.jsonPool (orc h.tick)
-  let h1 : H := { h with jsonPool := g.2, tick := h.tick + 1 }
-  let o1 : JsonObj := { g.1 with cfg := some p.cfg, spaced := p.spaced,
-                                 openNs := if c.cloneSetsOpenNs then p.openNs else g.1.openNs }
-  let b := bufGet orc h1
-  ⟨b.2, { o1 with buf := some b.1 }⟩
+  cloneFrom c orc { h with jsonPool := g.2, tick := h.tick + 1 } g.1 p
 
 /-- `putJSONEncoder` -/
 def putJson (c : Code) (h : H) (o : JsonObj) : H :=
@@ -316,6 +320,13 @@ def encodeJson (c : Code) (orc : Orc) (h : H) (p : Parent) (j : Job) : Nat × H 
   let s7 := encodeBody orc (cfgCheck (clone c orc h p) p) p j
   (s7.o.buf.getD 0, putJson c s7.h s7.o)
 
+/-- `EncodeEntry` when `_jsonPool.Get()` returned the object `g` (fresh or any garbage): the bytes the caller
+    receives, and the heap afterwards -/
+def encodeEntryFrom (c : Code) (orc : Orc) (h : H) (g : JsonObj) (p : Parent) (j : Job) : Bytes × H :=
+  let s7 := encodeBody orc (cfgCheck (cloneFrom c orc h g p) p) p j
+  let h' := putJson c s7.h s7.o
+  (h'.mem (s7.o.buf.getD 0), h')
+
 /-- the pure function the property asks for: the encoder model of C01/C02 (`Enc.encodeEntry`) on the same inputs -/
 def pureJson (p : Parent) (j : Job) : Bytes :=
   encodeEntry p.spaced (eraseO j.metaCalls) ⟨p.ctx, p.openNs⟩ (eraseO j.fields) (eraseO j.stack) j.ending
@@ -345,13 +356,16 @@ def slicePut (c : Code) (h : H) (a : SliceObj) : H :=
 
 def setMem (h : H) (b : Nat) (f : Bytes → Bytes) : H := { h with mem := upd h.mem b (f (h.mem b)) }
 
+/-- the values `consoleEncoder.EncodeEntry` prints when `getSliceEncoder` returned `a` and the sub-encoders appended `cols` -/
+def columnsFrom (a : SliceObj) (cols : List Bytes) : List Bytes := a.elems ++ cols
+
 /-- `consoleEncoder.EncodeEntry`, first part: `line := bufferpool.Get()`, the columns through the pooled slice
     encoder (`getSliceEncoder` … `putSliceEncoder`), the message -/
 def consoleHead (c : Code) (orc : Orc) (h : H) (j : CJob) : Nat × H :=
   let l := bufGet orc h
   let line := l.1
   let a := sliceGet orc l.2
-  let arr : SliceObj := { a.1 with elems := a.1.elems ++ j.cols }
+  let arr : SliceObj := { a.1 with elems := columnsFrom a.1 j.cols }
   let h1 := setMem a.2 line fun _ => Console.joinSep j.sepc arr.elems
   let h2 := slicePut c h1 arr
   match j.msg with
@@ -365,6 +379,12 @@ def consoleCtx (c : Code) (orc : Orc) (h : H) (line : Nat) (p : Parent) (j : CJo
   let cb := s2.h.mem (s2.o.buf.getD 0)
   let h4 := if cb.isEmpty then s2.h else setMem s2.h line fun b => Console.sepIf j.sepc b ++ 123 :: (cb ++ [125])
   putJson c (bufFree h4 (s2.o.buf.getD 0)) s2.o
+
+/-- `writeContext` when a marshaler among `extra` panics after having made the calls `fields`: only the deferred
+    `context.buf.Free(); putJSONEncoder(context)` runs — the one put site that can see namespaces still open -/
+def consoleCtxPanic (c : Code) (orc : Orc) (h : H) (p : Parent) (fields : List RO) : H :=
+  let s := cloneBody orc (cfgCheck (clone c orc h p) p) p fields
+  putJson c (bufFree s.h (s.o.buf.getD 0)) s.o
 
 /-- stack trace and line ending -/
 def consoleTail (h : H) (line : Nat) (j : CJob) : H :=
@@ -494,6 +514,8 @@ inductive Op where
   | errElem (zapPkg : Bool) (e : Nat)
   | capture (avail : List Nat) (full : Bool)
   | scratch (s : Bytes)                     -- FullPath / TrimmedPath / Take / Logger.check: Get, write, copy out, Free
+  | ctxPanic (p : Parent) (j : CJob)        -- console EncodeEntry whose fields panic after the calls `j.fields`: the
+                                            -- line buffer is lost, the deferred put of writeContext runs
   | gc (keep : Nat → Bool)                  -- a GC cycle drops any subset of every pool
 
 def keepIdx {α} (k : Nat → Bool) : Nat → List α → List α
@@ -530,6 +552,9 @@ def step (c : Code) (orc : Orc) (h : H) : Op → H
     let b := bufGet orc h
     let h1 := setMem b.2 b.1 fun x => x ++ s
     bufFree { h1 with out := Out.line (h1.mem b.1) :: h1.out } b.1
+  | .ctxPanic p j =>
+    let hd := consoleHead c orc h j
+    consoleCtxPanic c orc hd.2 p j.fields
   | .gc k =>
     { h with bufPool := keepIdx k 0 h.bufPool, jsonPool := keepIdx k 0 h.jsonPool, slicePool := keepIdx k 0 h.slicePool,
              cePool := keepIdx k 0 h.cePool, errPoolCore := keepIdx k 0 h.errPoolCore, errPoolZap := keepIdx k 0 h.errPoolZap,
@@ -567,6 +592,7 @@ def pstep (s : PS) : Op → PS
   | .errElem _ e => { s with out := Out.err (some e) :: s.out }
   | .capture avail full => { s with out := Out.stack (if full then avail else avail.take 1) :: s.out }
   | .scratch b => { s with out := Out.line b :: s.out }
+  | .ctxPanic _ _ => s
   | .gc _ => s
 
 def prun (s : PS) (ops : List Op) : PS := ops.foldl pstep s
